@@ -172,6 +172,52 @@ func c17Seeds(format string, thorough bool) []c17Seed {
 			}
 		}
 	}
+	// spliced documents: a collection whose members were encoded separately, each against the
+	// element constraint, so that members carry DIFFERENT concrete types where the constraint
+	// has a placeholder below the collection level (the decoder must unify them or fail)
+	if format == "json" || format == "msgpack" {
+		type ev struct {
+			con  *TS
+			vals []cty.Value
+		}
+		S, N := cty.StringVal, cty.NumberIntVal
+		elems := []ev{
+			{tObj(at("v", tsDyn)), []cty.Value{cty.ObjectVal(map[string]cty.Value{"v": S("x")}), cty.ObjectVal(map[string]cty.Value{"v": cty.True}), cty.ObjectVal(map[string]cty.Value{"v": cty.ListVal([]cty.Value{N(1)})}), cty.ObjectVal(map[string]cty.Value{"v": cty.NullVal(cty.Number)})}},
+			{tList(tsDyn), []cty.Value{cty.ListVal([]cty.Value{S("a")}), cty.ListVal([]cty.Value{N(1)}), cty.ListValEmpty(cty.Bool), cty.ListVal([]cty.Value{cty.EmptyObjectVal})}},
+			{tTuple(tsDyn), []cty.Value{cty.TupleVal([]cty.Value{S("a")}), cty.TupleVal([]cty.Value{N(1)}), cty.TupleVal([]cty.Value{cty.EmptyTupleVal})}},
+			{tMap(tsDyn), []cty.Value{cty.MapVal(map[string]cty.Value{"k": S("a")}), cty.MapVal(map[string]cty.Value{"k": cty.False}), cty.MapValEmpty(cty.Number)}},
+			{tsDyn, []cty.Value{S("a"), N(1), cty.True, cty.ListVal([]cty.Value{S("a")}), cty.EmptyObjectVal, cty.NullVal(cty.String)}},
+		}
+		for _, e := range elems {
+			var frags [][]byte
+			for _, v := range e.vals {
+				var b []byte
+				var err error
+				if format == "json" {
+					b, err = ctyjson.Marshal(v, e.con.Build())
+				} else {
+					b, err = ctymsgpack.Marshal(v, e.con.Build())
+				}
+				if err == nil {
+					frags = append(frags, b)
+				}
+			}
+			for i := range frags {
+				for j := range frags {
+					var seq, mp []byte
+					if format == "json" {
+						seq = []byte("[" + string(frags[i]) + "," + string(frags[j]) + "]")
+						mp = []byte(`{"k1":` + string(frags[i]) + `,"k2":` + string(frags[j]) + "}")
+					} else {
+						seq = append(append([]byte{0x92}, frags[i]...), frags[j]...)
+						mp = append(append(append(append([]byte{0x82, 0xa2, 'k', '1'}, frags[i]...), 0xa2, 'k', '2'), frags[j]...))
+					}
+					add(seq, []*TS{tList(e.con), tSet(e.con), tTuple(e.con, e.con)}, "spliced-sequence")
+					add(mp, []*TS{tMap(e.con), tObj(at("k1", e.con), at("k2", e.con))}, "spliced-map")
+				}
+			}
+		}
+	}
 	if format == "msgpack" {
 		// refined unknowns
 		for _, ty := range []cty.Type{cty.Number, cty.String, cty.List(cty.String)} {
